@@ -1,5 +1,6 @@
 """Sidecar contracts for btc_hd_wallet/paper_wallet.py + node-level helpers of base_wallet.py
 (C06 records, C15 paranoia input side, C16 network tags, C14 watch-only rows)."""
+from . import summaries as _SUM_ALWAYS      # noqa: F401,E402  (summaries installed independent of import order)
 import z3
 from pyvc import prims as U
 from pyvc import logic as L
